@@ -86,7 +86,7 @@ class Compute:
 
         while len(coords) > 1:
             new = []
-            if radix > len(coords):
+            if radix == "N" or radix > len(coords):
                 radix = len(coords)
 
             for i in range(0, len(coords), radix):
